@@ -3,5 +3,7 @@
 
 pub mod field;
 pub mod poly;
+pub mod rescue;
+pub mod rescue_consts;
 
 pub use field::*;
